@@ -97,14 +97,29 @@ def build_bbm():
         raise BuildError('bbm build', (o + e)[-4000:])
 
 
-def build_bbh(profile='release'):
+def build_bbh(profile='release', features=None):
     """Rebuild the harness from /repo's CURRENT working tree (cargo decides
-    what changed). Hooks on, overflow checks as in cargo test."""
+    what changed). Hooks on, overflow checks as in cargo test.
+    If the full build fails and `features` (the command families the calling check needs) is given, a
+    second build with only those families is tried in its own target dir: a change to /repo that breaks
+    the glue of one family must not raise an alarm for properties that never use that family."""
+    global BBH, BBH_WRAP
     if BBH_OVERRIDE and profile == 'release':
         return
     env = dict(ENV, RUSTFLAGS='--cfg bb_verif')
     flag = '--release' if profile == 'release' else f'--profile {profile}'
     rc, o, e = sh(f'cargo build {flag} --offline', cwd=HARNESS, env=env, timeout=1800)
+    if rc != 0 and features is not None:
+        tdir = f'{HARNESS}/target_min'
+        fl = f'--no-default-features --features "{" ".join(features)}"' if features else '--no-default-features'
+        rc2, o2, e2 = sh(f'cargo build {flag} --offline {fl}', cwd=HARNESS, env=dict(env, CARGO_TARGET_DIR=tdir), timeout=1800)
+        if rc2 == 0:
+            if profile == 'release':
+                BBH = f'{tdir}/release/bbh'
+            else:
+                BBH_WRAP = f'{tdir}/{profile}/bbh'
+            sys.stderr.write('note: full harness build failed; using the reduced build with families %r\n' % (features,))
+            return
     if rc != 0:
         raise BuildError('bbh build (does /repo compile with --cfg bb_verif?)', (o + e)[-6000:])
 
